@@ -69,6 +69,7 @@ type simRoutesScenario struct {
 	noFlap  bool
 	noAPI   bool
 	noPeers bool
+	noDrain bool // teardown without force-draining the peers' queues (C20 leak oracle)
 	// C02 model: what each bot announced on its current session
 	model map[string]simModelRoute // key bot|prefix|pathid
 	local map[string]int           // prefix -> variant of API route
@@ -103,13 +104,15 @@ func init() {
 				sc.noAPI = true
 			case "nopeers":
 				sc.noPeers = true
+			case "nodrain":
+				sc.noDrain = true
 			}
 		}
 		return sc
 	}
 }
 
-func (sc *simRoutesScenario) ForceDrain() bool { return true }
+func (sc *simRoutesScenario) ForceDrain() bool { return !sc.noDrain }
 
 func (sc *simRoutesScenario) Setup(w *simWorld) {
 	sc.model = map[string]simModelRoute{}
